@@ -1,7 +1,976 @@
-//! C04 — not implemented yet (see DESIGN.md section 4).
-use kit::Run;
-use serde_json::Value;
+//! C04 — validation state is derived soundly from validation codes.
+//!
+//! S-seq explicit-state search on the REAL `ValidationResults` / `ValidationStatus` objects.
+//! state      = multiset of atoms (placement ∈ {active, delta1, delta2}) × (bin ∈ {success, informational, failure}) × code
+//! transition = `ValidationResults::add_status(atom)` on the real object
+//! alphabet   = every code harvested at run time from sdk/src/validation_results.rs (mod validation_codes) and
+//!              sdk/src/validation_status.rs, plus unknown codes, × 3 placements × 3 bins
+//! bound      = every subset of 12 core atoms (reached breadth-first over the subset lattice), from each of them every
+//!              one-step extension by the full alphabet (appended AND prepended), every ordered two-step extension by a
+//!              reduced alphabet (quick) / by the full alphabet from the 2^8 sub-lattice (thorough)
+//! oracle     = reference function transcribed from the property text (one-directional: the implementation may never report
+//!              more than the reference allows); adding a non-tolerated failure to an Invalid state stays Invalid
+//! also       = serde construction of the same states, Reader::from_json carrying a results object, the legacy
+//!              status-list fallback (every subset of <= 3 codes) and readers without any results; stateright BFS of the
+//!              same model as a cross-check of state counts (and a second engine evaluating the real code in every state).
+//!
+//! Mutants caught (tools/mutant_run.sh C <diff> C04 quick):
+//!   /verif/mutants/C04-tolerate-expired.diff   (is_tolerated_manifest_failure_code also tolerates signingCredential.expired)
+//!   /verif/mutants/C04-drop-inside-validity.diff (insideValidity conjunct dropped)
 
-pub fn run(_run: &Run, _replay: Option<&Value>) {
-    kit::ev::machinery("C04: check not implemented");
+use c2pa::{
+    status_tracker::LogKind,
+    validation_results::{ValidationResults, ValidationState},
+    validation_status::ValidationStatus,
+    Reader,
+};
+use kit::{par, Run};
+use serde_json::{json, Value};
+use stateright::{Checker, Model, Property};
+use std::{
+    collections::{BTreeMap, HashSet},
+    sync::{
+        atomic::{AtomicU64, Ordering},
+        Arc, Mutex,
+    },
+};
+
+// ------------------------------------------------------------------------------------------------
+// alphabet
+
+const VALIDATED: &str = "claimSignature.validated";
+const INSIDE: &str = "claimSignature.insideValidity";
+const TRUSTED: &str = "signingCredential.trusted";
+const UNTRUSTED: &str = "signingCredential.untrusted";
+const CAWG_PREFIX: &str = "cawg.x509.";
+const CAWG_CORE: &str = "cawg.x509.credential.untrusted";
+const HARD_FAILURE: &str = "assertion.dataHash.mismatch";
+
+const UNKNOWN_CODES: [&str; 3] = ["zz.unknown.code", "claimSignature.validatedX", "cawg.x509.zz_unknown"];
+
+const DELTA_URIS: [&str; 2] = [
+    "self#jumbf=/c2pa/urn:c2pa:00000000-0000-4000-8000-000000000001/c2pa.assertions/c2pa.ingredient.v3",
+    "self#jumbf=/c2pa/urn:c2pa:00000000-0000-4000-8000-000000000001/c2pa.assertions/c2pa.ingredient.v3__1",
+];
+
+#[derive(Clone, Copy, PartialEq, Eq, Debug, Hash, PartialOrd, Ord)]
+struct Atom {
+    code: u16,
+    placement: u8, // 0 active, 1 delta1, 2 delta2
+    bin: u8,       // 0 success, 1 informational, 2 failure
+}
+
+const PLACEMENTS: [&str; 3] = ["active", "delta1", "delta2"];
+const BINS: [&str; 3] = ["success", "informational", "failure"];
+
+struct Alphabet {
+    codes: Vec<String>,
+    /// section the SDK source declares the code under ("success" | "informational" | "failure" | "unknown")
+    declared: Vec<&'static str>,
+    atoms: Vec<Atom>,
+    /// prebuilt real status objects, parallel to `atoms`
+    statuses: Vec<ValidationStatus>,
+}
+
+fn repo_root() -> String {
+    std::env::var("VERIF_MUT_REPO").unwrap_or_else(|_| "/repo".to_string())
+}
+
+/// Harvest `const NAME: &str = "value";` items (value may be on the following line) and the section markers.
+fn harvest() -> Vec<(String, &'static str)> {
+    let mut out: Vec<(String, &'static str)> = vec![];
+    let p = format!("{}/sdk/src/validation_results.rs", repo_root());
+    let src = std::fs::read_to_string(&p).unwrap_or_else(|e| kit::ev::machinery(format!("C04: cannot read {p}: {e}")));
+    let start = src.find("pub mod validation_codes").unwrap_or_else(|| kit::ev::machinery("C04: mod validation_codes not found"));
+    let body = &src[start..];
+    let end = body.find("#[cfg(test)]").unwrap_or(body.len());
+    let body = &body[..end];
+    let mut section: &'static str = "unknown";
+    let mut pending = false;
+    for line in body.lines() {
+        let t = line.trim();
+        if t.starts_with("// --") {
+            section = if t.contains("success") {
+                "success"
+            } else if t.contains("informational") {
+                "informational"
+            } else if t.contains("failure") {
+                "failure"
+            } else {
+                "unknown"
+            };
+            continue;
+        }
+        if t.starts_with("//") {
+            continue;
+        }
+        let probe = if t.contains("const ") && t.contains("&str") {
+            pending = true;
+            t.split_once('=').map(|x| x.1).unwrap_or("")
+        } else {
+            t
+        };
+        if pending {
+            if let Some(a) = probe.find('"') {
+                if let Some(b) = probe[a + 1..].find('"') {
+                    out.push((probe[a + 1..a + 1 + b].to_string(), section));
+                    pending = false;
+                }
+            }
+        }
+    }
+    let p2 = format!("{}/sdk/src/validation_status.rs", repo_root());
+    let src2 = std::fs::read_to_string(&p2).unwrap_or_else(|e| kit::ev::machinery(format!("C04: cannot read {p2}: {e}")));
+    for line in src2.lines() {
+        let t = line.trim();
+        if !t.starts_with("//") && t.contains("const ") && t.contains("&str") {
+            if let Some((_, v)) = t.split_once('=') {
+                if let Some(a) = v.find('"') {
+                    if let Some(b) = v[a + 1..].find('"') {
+                        out.push((v[a + 1..a + 1 + b].to_string(), "unknown"));
+                    }
+                }
+            }
+        }
+    }
+    out
+}
+
+fn mk_status(code: &str, placement: u8, bin: u8) -> ValidationStatus {
+    let s: ValidationStatus = serde_json::from_value(json!({ "code": code }))
+        .unwrap_or_else(|e| kit::ev::machinery(format!("C04: cannot construct ValidationStatus: {e}")));
+    let s = s.set_kind(match bin {
+        0 => LogKind::Success,
+        1 => LogKind::Informational,
+        _ => LogKind::Failure,
+    });
+    match placement {
+        0 => s,
+        p => s.set_ingredient_uri(DELTA_URIS[p as usize - 1]),
+    }
+}
+
+fn alphabet() -> Alphabet {
+    let mut codes: Vec<String> = vec![];
+    let mut declared: Vec<&'static str> = vec![];
+    for (c, sec) in harvest() {
+        if !codes.contains(&c) {
+            codes.push(c);
+            declared.push(sec);
+        }
+    }
+    if codes.len() < 90 {
+        kit::ev::machinery(format!("C04: only {} codes harvested from the SDK source", codes.len()));
+    }
+    for must in [VALIDATED, INSIDE, TRUSTED, UNTRUSTED, CAWG_CORE, HARD_FAILURE, "signingCredential.expired"] {
+        if !codes.iter().any(|c| c == must) {
+            kit::ev::machinery(format!("C04: code {must} not found in the SDK source"));
+        }
+    }
+    for (i, must) in [(0usize, "success"), (1, "success"), (2, "success")] {
+        let c = [VALIDATED, INSIDE, TRUSTED][i];
+        let k = codes.iter().position(|x| x == c).unwrap();
+        if declared[k] != must {
+            kit::ev::machinery(format!("C04: section markers not understood ({c} declared {})", declared[k]));
+        }
+    }
+    for u in UNKNOWN_CODES {
+        if !codes.iter().any(|c| c == u) {
+            codes.push(u.to_string());
+            declared.push("unknown");
+        }
+    }
+    let mut atoms = vec![];
+    let mut statuses = vec![];
+    for (ci, c) in codes.iter().enumerate() {
+        for placement in 0..3u8 {
+            for bin in 0..3u8 {
+                atoms.push(Atom { code: ci as u16, placement, bin });
+                statuses.push(mk_status(c, placement, bin));
+            }
+        }
+    }
+    Alphabet { codes, declared, atoms, statuses }
+}
+
+impl Alphabet {
+    fn code(&self, a: Atom) -> &str {
+        &self.codes[a.code as usize]
+    }
+    fn idx(&self, code: &str, placement: u8, bin: u8) -> usize {
+        let ci = self.codes.iter().position(|c| c == code).unwrap_or_else(|| kit::ev::machinery(format!("C04: no code {code}")));
+        (ci * 3 + placement as usize) * 3 + bin as usize
+    }
+    fn describe(&self, a: Atom) -> Value {
+        json!([PLACEMENTS[a.placement as usize], BINS[a.bin as usize], self.code(a)])
+    }
+    fn parse(&self, v: &Value) -> Option<(String, u8, u8)> {
+        let p = PLACEMENTS.iter().position(|x| Some(*x) == v[0].as_str())? as u8;
+        let b = BINS.iter().position(|x| Some(*x) == v[1].as_str())? as u8;
+        Some((v[2].as_str()?.to_string(), p, b))
+    }
+}
+
+// ------------------------------------------------------------------------------------------------
+// reference (transcribed from the property text)
+
+fn tolerated(code: &str) -> bool {
+    code == UNTRUSTED || code.starts_with(CAWG_PREFIX)
+}
+
+fn rank(s: ValidationState) -> u8 {
+    match s {
+        ValidationState::Invalid => 0,
+        ValidationState::Valid => 1,
+        ValidationState::Trusted => 2,
+    }
+}
+const STATE_NAMES: [&str; 3] = ["Invalid", "Valid", "Trusted"];
+
+/// Highest state the property allows for a multiset of (code, placement, bin), and the first reason it is not higher.
+fn reference<'a>(atoms: impl Iterator<Item = (&'a str, u8, u8)> + Clone) -> (u8, String) {
+    let has = |c: &str| atoms.clone().any(|(code, p, b)| p == 0 && b == 0 && code == c);
+    let validated = has(VALIDATED);
+    let inside = has(INSIDE);
+    let trusted = has(TRUSTED);
+    let first_nontol = atoms.clone().find(|(code, _, b)| *b == 2 && !tolerated(code));
+    let first_fail = atoms.clone().find(|(_, _, b)| *b == 2);
+    if !validated {
+        return (0, "no-claimSignature.validated".into());
+    }
+    if !inside {
+        return (0, "no-claimSignature.insideValidity".into());
+    }
+    if let Some((c, p, _)) = first_nontol {
+        return (0, format!("non-tolerated-failure:{c}@{}", PLACEMENTS[p as usize]));
+    }
+    if let Some((c, p, _)) = first_fail {
+        return (1, format!("failure-present:{c}@{}", PLACEMENTS[p as usize]));
+    }
+    if !trusted {
+        return (1, "no-signingCredential.trusted".into());
+    }
+    (2, String::new())
+}
+
+// ------------------------------------------------------------------------------------------------
+// the engine
+
+struct Counters {
+    /// [impl rank][reference rank]
+    outcome: [[AtomicU64; 3]; 3],
+    evals: AtomicU64,
+    transitions: AtomicU64,
+    traces: AtomicU64,
+    nontrivial: AtomicU64,
+}
+
+impl Counters {
+    fn new() -> Self {
+        Counters {
+            outcome: Default::default(),
+            evals: AtomicU64::new(0),
+            transitions: AtomicU64::new(0),
+            traces: AtomicU64::new(0),
+            nontrivial: AtomicU64::new(0),
+        }
+    }
+}
+
+struct Ctx<'a> {
+    run: &'a Run,
+    al: &'a Alphabet,
+    cnt: Counters,
+}
+
+impl Ctx<'_> {
+    /// Judge one evaluated state: `seq` is the add_status order that built `obj`.
+    /// `pre` = implementation verdict before the last atom was added (None for construction paths without a predecessor).
+    fn judge(&self, how: &str, seq: &[Atom], got: ValidationState, pre: Option<ValidationState>) {
+        let al = self.al;
+        let (allowed, why) = reference(seq.iter().map(|a| (al.code(*a), a.placement, a.bin)));
+        let g = rank(got);
+        self.cnt.outcome[g as usize][allowed as usize].fetch_add(1, Ordering::Relaxed);
+        self.cnt.evals.fetch_add(1, Ordering::Relaxed);
+        if g > allowed {
+            self.run.violation(
+                format!("unsound got={} allowed={} why={why} via={how}", STATE_NAMES[g as usize], STATE_NAMES[allowed as usize]),
+                format!(
+                    "validation_state() = {} for a status set that only allows {} ({why}); statuses in add order: {}",
+                    STATE_NAMES[g as usize],
+                    STATE_NAMES[allowed as usize],
+                    Value::Array(seq.iter().map(|a| al.describe(*a)).collect())
+                ),
+                json!({"kind": how, "atoms": seq.iter().map(|a| al.describe(*a)).collect::<Vec<_>>()}),
+            );
+        }
+        if let (Some(pre), Some(last)) = (pre, seq.last()) {
+            if last.bin == 2 && !tolerated(al.code(*last)) && pre == ValidationState::Invalid && got != ValidationState::Invalid {
+                self.run.violation(
+                    format!("regress add={}@{} pre=Invalid post={}", al.code(*last), PLACEMENTS[last.placement as usize], STATE_NAMES[g as usize]),
+                    format!("adding the non-tolerated failure {} turned Invalid into {}", al.code(*last), STATE_NAMES[g as usize]),
+                    json!({"kind": "seq", "atoms": seq.iter().map(|a| al.describe(*a)).collect::<Vec<_>>()}),
+                );
+            }
+        }
+    }
+}
+
+fn build(al: &Alphabet, seq: &[usize]) -> ValidationResults {
+    let mut r = ValidationResults::default();
+    for i in seq {
+        r.add_status(al.statuses[*i].clone());
+    }
+    r
+}
+
+/// JSON rendering of the same state for serde construction (bins are given structurally).
+fn to_results_json(al: &Alphabet, seq: &[Atom]) -> Value {
+    let bins = |p: u8| -> Value {
+        let pick = |b: u8| -> Vec<Value> {
+            seq.iter().filter(|a| a.placement == p && a.bin == b).map(|a| json!({"code": al.code(*a)})).collect()
+        };
+        json!({"success": pick(0), "informational": pick(1), "failure": pick(2)})
+    };
+    let mut o = serde_json::Map::new();
+    if seq.iter().any(|a| a.placement == 0) {
+        o.insert("activeManifest".into(), bins(0));
+    }
+    let mut deltas = vec![];
+    for p in 1..3u8 {
+        if seq.iter().any(|a| a.placement == p) {
+            deltas.push(json!({"ingredientAssertionURI": DELTA_URIS[p as usize - 1], "validationDeltas": bins(p)}));
+        }
+    }
+    if !deltas.is_empty() {
+        o.insert("ingredientDeltas".into(), Value::Array(deltas));
+    }
+    Value::Object(o)
+}
+
+/// Number of distinct multisets M = S ⊎ E with S ⊆ core (a set), E a multiset over the alphabet, |E| <= depth.
+fn analytic_states(k: u64, alpha: u64, depth: u64) -> u64 {
+    let n = alpha - k; // non-core atoms
+    let nc = |e: u64| match e {
+        0 => 1,
+        1 => n,
+        2 => n * (n + 1) / 2,
+        _ => unreachable!(),
+    };
+    let p2 = |x: i64| if x < 0 { 0u64 } else { 1u64 << x };
+    let cv = |e: u64| match e {
+        0 => p2(k as i64),
+        1 => k * p2(k as i64 - 1),
+        2 => k * p2(k as i64 - 1) + (k * k.saturating_sub(1) / 2) * p2(k as i64 - 2),
+        _ => unreachable!(),
+    };
+    let mut s = 0;
+    for en in 0..=depth {
+        for ec in 0..=(depth - en) {
+            s += nc(en) * cv(ec);
+        }
+    }
+    s
+}
+
+/// canonical key of a multiset
+fn canon_key(seq: &[usize]) -> Vec<u16> {
+    let mut v: Vec<u16> = seq.iter().map(|x| *x as u16).collect();
+    v.sort_unstable();
+    v
+}
+
+// ------------------------------------------------------------------------------------------------
+// stateright model of the same space (state = sorted multiset of atom indices)
+
+#[derive(Clone)]
+struct SrModel {
+    al: Arc<Alphabet>,
+    core: Vec<u16>,
+    alpha: Vec<u16>,
+    depth: usize,
+    mismatches: Arc<Mutex<Vec<(Vec<u16>, String)>>>,
+    evals: Arc<AtomicU64>,
+}
+
+impl SrModel {
+    /// minimal number of extension steps needed to reach the multiset
+    fn ext_min(&self, st: &[u16]) -> usize {
+        let mut need = 0;
+        let mut i = 0;
+        while i < st.len() {
+            let mut j = i;
+            while j < st.len() && st[j] == st[i] {
+                j += 1;
+            }
+            let m = j - i;
+            need += if self.core.contains(&st[i]) { m - 1 } else { m };
+            i = j;
+        }
+        need
+    }
+}
+
+impl Model for SrModel {
+    type State = Vec<u16>;
+    type Action = u16;
+
+    fn init_states(&self) -> Vec<Self::State> {
+        vec![vec![]]
+    }
+
+    fn actions(&self, state: &Self::State, actions: &mut Vec<Self::Action>) {
+        for a in &self.alpha {
+            let mut n = state.clone();
+            let pos = n.partition_point(|x| x <= a);
+            n.insert(pos, *a);
+            if self.ext_min(&n) <= self.depth {
+                actions.push(*a);
+            }
+        }
+    }
+
+    fn next_state(&self, last: &Self::State, action: Self::Action) -> Option<Self::State> {
+        let mut n = last.clone();
+        let pos = n.partition_point(|x| *x <= action);
+        n.insert(pos, action);
+        Some(n)
+    }
+
+    fn properties(&self) -> Vec<Property<Self>> {
+        // The condition always answers true so that the search runs to completion; mismatches are collected on the side.
+        vec![Property::always("sound", |m: &SrModel, st: &Vec<u16>| {
+            let seq: Vec<usize> = st.iter().map(|x| *x as usize).collect();
+            let obj = build(&m.al, &seq);
+            let got = rank(obj.validation_state());
+            let (allowed, why) = reference(seq.iter().map(|i| {
+                let a = m.al.atoms[*i];
+                (m.al.code(a), a.placement, a.bin)
+            }));
+            m.evals.fetch_add(1, Ordering::Relaxed);
+            if got > allowed {
+                m.mismatches.lock().unwrap().push((st.clone(), format!("got={} allowed={} why={why}", STATE_NAMES[got as usize], STATE_NAMES[allowed as usize])));
+            }
+            true
+        })]
+    }
+}
+
+// ------------------------------------------------------------------------------------------------
+
+pub fn run(run: &Run, replay: Option<&Value>) {
+    run.rule(
+        "state = multiset of (placement, bin, code) atoms built on the real ValidationResults by add_status; every subset of the 12 core atoms, \
+         every one-step extension of each by the full harvested alphabet (appended and prepended), ordered two-step extensions (reduced alphabet from all \
+         4096 bases in quick; full alphabet from the 256-state sub-lattice in thorough). non-trivial = evaluated traces whose base contains \
+         claimSignature.validated and claimSignature.insideValidity in the active success bin (the verdict then depends on the failure/trust atoms); \
+         distinct by construction (each (base, extension sequence, order) is enumerated once).",
+    );
+    run.assume("tolerated failure codes = signingCredential.untrusted and every code with the prefix 'cawg.x509.' (the SDK's documented list; the property text says 'explicitly tolerated credential codes')");
+    run.assume("the oracle is one-directional as the property is ('only if'): reporting a LOWER state than the reference is counted (outcomes Invalid/Valid etc.) but is not a violation");
+    run.assume("legacy status lists are judged under the most permissive reading: each listed code is binned by the section the SDK source declares it under; unknown codes are failures");
+    let al = Arc::new(alphabet());
+    let ctx = Ctx { run, al: &al, cnt: Counters::new() };
+
+    if let Some(c) = replay {
+        replay_case(&ctx, c);
+        return;
+    }
+
+    run.extra("codes_harvested", json!(al.codes.len()));
+    run.extra("alphabet_atoms", json!(al.atoms.len()));
+
+    // determinism probe (same sequence twice)
+    {
+        let seq = [al.idx(VALIDATED, 0, 0), al.idx(INSIDE, 0, 0), al.idx(UNTRUSTED, 1, 2)];
+        let a = build(&al, &seq).validation_state();
+        let b = build(&al, &seq).validation_state();
+        if a != b {
+            kit::ev::machinery("C04: validation_state is not deterministic");
+        }
+        if a != ValidationState::Valid {
+            // not a machinery failure: will be judged below; only make sure atoms land where we think they do
+        }
+        let r = build(&al, &seq);
+        let placed = r.active_manifest().map(|s| s.success().len()) == Some(2)
+            && r.ingredient_deltas().map(|d| d.len()) == Some(1)
+            && r.ingredient_deltas().map(|d| d[0].validation_deltas().failure().len()) == Some(1);
+        if !placed {
+            kit::ev::machinery("C04: add_status does not place atoms by (ingredient uri, kind) as the harness assumes");
+        }
+    }
+
+    // ---- 1. core lattice, breadth first ---------------------------------------------------------
+    let core: Vec<usize> = {
+        let mut v = vec![al.idx(VALIDATED, 0, 0), al.idx(INSIDE, 0, 0), al.idx(TRUSTED, 0, 0)];
+        for p in 0..3u8 {
+            v.push(al.idx(UNTRUSTED, p, 2));
+            v.push(al.idx(CAWG_CORE, p, 2));
+            v.push(al.idx(HARD_FAILURE, p, 2));
+        }
+        v
+    };
+    let k = core.len();
+    let nmask = 1usize << k;
+    let mut rep: Vec<Option<(ValidationResults, Vec<Atom>)>> = vec![None; nmask];
+    rep[0] = Some((ValidationResults::default(), vec![]));
+    ctx.judge("seq", &[], ValidationResults::default().validation_state(), None);
+    let mut order: Vec<usize> = (0..nmask).collect();
+    order.sort_by_key(|m| (m.count_ones(), *m));
+    let mut lattice_states = 1u64;
+    for &mask in &order {
+        let (obj, seq) = rep[mask].clone().unwrap_or_else(|| kit::ev::machinery("C04: lattice BFS hole"));
+        let pre = obj.validation_state();
+        for bit in 0..k {
+            if mask & (1 << bit) != 0 {
+                continue;
+            }
+            let mut o = obj.clone();
+            o.add_status(al.statuses[core[bit]].clone());
+            let mut s = seq.clone();
+            s.push(al.atoms[core[bit]]);
+            ctx.judge("seq", &s, o.validation_state(), Some(pre));
+            ctx.cnt.transitions.fetch_add(1, Ordering::Relaxed);
+            ctx.cnt.traces.fetch_add(1, Ordering::Relaxed);
+            let nm = mask | (1 << bit);
+            if rep[nm].is_none() {
+                rep[nm] = Some((o, s));
+                lattice_states += 1;
+            }
+        }
+    }
+    run.space("core lattice: subsets of 12 core atoms, every add_status edge", (k as u64) << (k - 1), true);
+    let rep: Vec<(ValidationResults, Vec<Atom>)> = rep.into_iter().map(|x| x.unwrap()).collect();
+    let base_nontrivial = |mask: usize| mask & 0b11 == 0b11;
+
+    // ---- 2. one-step extension by the full alphabet (append + prepend) ---------------------------
+    let na = al.atoms.len();
+    par::for_each_index(nmask as u64, |mask| {
+        let mask = mask as usize;
+        let (obj, seq) = &rep[mask];
+        let pre = obj.validation_state();
+        let mut s = seq.clone();
+        s.push(al.atoms[0]);
+        let mut pseq: Vec<Atom> = Vec::with_capacity(seq.len() + 1);
+        for a in 0..na {
+            // appended
+            let mut o = obj.clone();
+            o.add_status(al.statuses[a].clone());
+            *s.last_mut().unwrap() = al.atoms[a];
+            ctx.judge("seq", &s, o.validation_state(), Some(pre));
+            // prepended (the extension atom is added to an empty object, the base atoms follow)
+            let mut o2 = ValidationResults::default();
+            o2.add_status(al.statuses[a].clone());
+            pseq.clear();
+            pseq.push(al.atoms[a]);
+            for (i, bit) in core.iter().enumerate() {
+                if mask & (1 << i) != 0 {
+                    o2.add_status(al.statuses[*bit].clone());
+                    pseq.push(al.atoms[*bit]);
+                }
+            }
+            ctx.judge("seq", &pseq, o2.validation_state(), None);
+        }
+        ctx.cnt.transitions.fetch_add(na as u64, Ordering::Relaxed);
+        ctx.cnt.traces.fetch_add(2 * na as u64, Ordering::Relaxed);
+        if base_nontrivial(mask) {
+            ctx.cnt.nontrivial.fetch_add(2 * na as u64, Ordering::Relaxed);
+        }
+    });
+    run.space("one-step extension: 4096 bases x full alphabet x {appended, prepended}", 2 * (nmask * na) as u64, true);
+
+    // ---- 3. two-step extensions -----------------------------------------------------------------
+    // reduced alphabet: per placement and bin, one representative of each code class
+    let reduced: Vec<usize> = {
+        let mut v = vec![];
+        for c in [VALIDATED, INSIDE, TRUSTED, UNTRUSTED, CAWG_CORE, "cawg.x509.signature.mismatch", HARD_FAILURE, "signingCredential.expired", "zz.unknown.code", "timeStamp.mismatch"] {
+            for p in 0..2u8 {
+                for b in [0u8, 2u8] {
+                    v.push(al.idx(c, p, b));
+                }
+            }
+        }
+        v
+    };
+    let (bases2, alpha2, name2): (Vec<usize>, Vec<usize>, String) = if run.tier.is_thorough() {
+        // sub-lattice over 8 of the core atoms (bits 0..=5: active atoms; bits 6,8: delta1 untrusted + hard failure)
+        let keep: usize = 0b1_0111_1111;
+        ((0..nmask).filter(|m| m & !keep == 0).collect(), (0..na).collect(), "two-step extension: 256-state sub-lattice x full alphabet^2 (ordered)".into())
+    } else {
+        ((0..nmask).collect(), reduced.clone(), format!("two-step extension: 4096 bases x reduced alphabet({})^2 (ordered)", reduced.len()))
+    };
+    let n2 = alpha2.len();
+    par::for_each_index((bases2.len() * n2) as u64, |i| {
+        let mask = bases2[i as usize / n2];
+        let a = alpha2[i as usize % n2];
+        let (obj, seq) = &rep[mask];
+        let mut o1 = obj.clone();
+        o1.add_status(al.statuses[a].clone());
+        let pre = o1.validation_state();
+        let mut s = seq.clone();
+        s.push(al.atoms[a]);
+        s.push(al.atoms[a]);
+        for &b in &alpha2 {
+            let mut o = o1.clone();
+            o.add_status(al.statuses[b].clone());
+            *s.last_mut().unwrap() = al.atoms[b];
+            ctx.judge("seq", &s, o.validation_state(), Some(pre));
+        }
+        ctx.cnt.transitions.fetch_add(n2 as u64, Ordering::Relaxed);
+        ctx.cnt.traces.fetch_add(n2 as u64, Ordering::Relaxed);
+        if base_nontrivial(mask) {
+            ctx.cnt.nontrivial.fetch_add(n2 as u64, Ordering::Relaxed);
+        }
+    });
+    run.space(&name2, (bases2.len() * n2 * n2) as u64, true);
+
+    // distinct states visited by sections 1-3: analytic for the full one-step space, exact set for the two-step space
+    let states_1 = analytic_states(k as u64, na as u64, 1);
+    debug_assert!(lattice_states == nmask as u64);
+    let states_2_extra: u64 = {
+        // states of section 3 that are not already in section 1/2: those needing two extension steps
+        let core_set: HashSet<usize> = core.iter().cloned().collect();
+        let mut set: HashSet<Vec<u16>> = HashSet::new();
+        if !run.tier.is_thorough() {
+            for &mask in &bases2 {
+                let base: Vec<usize> = (0..k).filter(|i| mask & (1 << i) != 0).map(|i| core[i]).collect();
+                for &a in &alpha2 {
+                    for &b in &alpha2 {
+                        if b < a {
+                            continue;
+                        }
+                        let mut v = base.clone();
+                        v.push(a);
+                        v.push(b);
+                        let key = canon_key(&v);
+                        // needs two steps?
+                        let mut need = 0;
+                        let mut i = 0;
+                        while i < key.len() {
+                            let mut j = i;
+                            while j < key.len() && key[j] == key[i] {
+                                j += 1;
+                            }
+                            need += if core_set.contains(&(key[i] as usize)) { j - i - 1 } else { j - i };
+                            i = j;
+                        }
+                        if need == 2 {
+                            set.insert(key);
+                        }
+                    }
+                }
+            }
+            set.len() as u64
+        } else {
+            // thorough: analytic over the sub-lattice (k=8 core atoms of the sub-lattice, the other 4 core atoms count as non-core there),
+            // minus nothing: states needing exactly two steps relative to the FULL core are a subset; report the sub-lattice figure separately
+            0
+        }
+    };
+    run.states(states_1 + states_2_extra);
+    run.extra("states_lattice", json!(lattice_states));
+    run.extra("states_within_one_extension_step(analytic)", json!(states_1));
+    if run.tier.is_thorough() {
+        run.extra("two_step_sublattice_states(analytic, relative to its own 8 core atoms)", json!(analytic_states(8, na as u64, 2)));
+    } else {
+        run.extra("states_needing_two_extension_steps(exact set)", json!(states_2_extra));
+    }
+
+    // ---- 4. serde construction and Reader::from_json with a results object ----------------------
+    {
+        let ext: Vec<Option<usize>> = std::iter::once(None).chain(reduced.iter().map(|x| Some(*x))).collect();
+        let cases = nmask * ext.len();
+        par::for_each_index(cases as u64, |i| {
+            let mask = i as usize / ext.len();
+            let e = ext[i as usize % ext.len()];
+            let mut seq = rep[mask].1.clone();
+            if let Some(e) = e {
+                seq.push(al.atoms[e]);
+            }
+            let v = to_results_json(&al, &seq);
+            match serde_json::from_value::<ValidationResults>(v.clone()) {
+                Ok(r) => {
+                    ctx.judge("serde", &seq, r.validation_state(), None);
+                    // a serialise/deserialise round trip of the add_status-built object keeps the verdict
+                    if e.is_none() {
+                        let built = &rep[mask].0;
+                        let rt: Result<ValidationResults, _> = serde_json::to_value(built).and_then(serde_json::from_value);
+                        match rt {
+                            Ok(rt) => ctx.judge("serde-roundtrip", &seq, rt.validation_state(), None),
+                            Err(er) => kit::ev::machinery(format!("C04: results object does not survive serde: {er}")),
+                        }
+                    }
+                }
+                Err(er) => kit::ev::machinery(format!("C04: results JSON rejected: {er} {v}")),
+            }
+            if e.is_none() {
+                let rj = json!({"manifests": {}, "validation_results": v, "validation_state": "Trusted"});
+                match Reader::from_json(&rj.to_string()) {
+                    Ok(rd) => ctx.judge("reader-json", &seq, rd.validation_state(), None),
+                    Err(er) => kit::ev::machinery(format!("C04: Reader::from_json rejected the harness document: {er:?}")),
+                }
+            }
+            ctx.cnt.traces.fetch_add(1, Ordering::Relaxed);
+        });
+        run.space("serde construction: 4096 bases x (none + reduced alphabet); round trip and Reader::from_json(results) for the 4096 bases", cases as u64, true);
+    }
+
+    // ---- 5. legacy fallback ---------------------------------------------------------------------
+    legacy(&ctx);
+
+    // ---- 6. stateright cross-check ----------------------------------------------------------------
+    {
+        let depth = 1usize;
+        let sr_alpha: Vec<u16> = if run.tier.is_thorough() {
+            (0..na as u16).collect()
+        } else {
+            let mut v: Vec<u16> = core.iter().map(|x| *x as u16).collect();
+            for r in &reduced {
+                if !v.contains(&(*r as u16)) {
+                    v.push(*r as u16);
+                }
+            }
+            v
+        };
+        let model = SrModel {
+            al: al.clone(),
+            core: core.iter().map(|x| *x as u16).collect(),
+            alpha: sr_alpha.clone(),
+            depth,
+            mismatches: Arc::new(Mutex::new(vec![])),
+            evals: Arc::new(AtomicU64::new(0)),
+        };
+        let mm = model.mismatches.clone();
+        let ev = model.evals.clone();
+        let t0 = std::time::Instant::now();
+        let checker = model.checker().threads(par::workers()).spawn_bfs().join();
+        let unique = checker.unique_state_count() as u64;
+        let generated = checker.state_count() as u64;
+        let expect = analytic_states(k as u64, sr_alpha.len() as u64, depth as u64);
+        run.extra(
+            "stateright",
+            json!({"alphabet": sr_alpha.len(), "extension_depth": depth, "unique_states": unique, "expected_states(analytic)": expect,
+                   "transitions": generated.saturating_sub(1), "max_depth": checker.max_depth(), "property_evaluations": ev.load(Ordering::Relaxed), "wall_s": t0.elapsed().as_secs_f64()}),
+        );
+        if unique != expect {
+            kit::ev::machinery(format!("C04: stateright explored {unique} states, the engine's model has {expect}"));
+        }
+        // own engine, exact-set count on the same parameters (proves the analytic formula on this instance)
+        let own: u64 = {
+            let core16: Vec<u16> = core.iter().map(|x| *x as u16).collect();
+            let mut set: HashSet<Vec<u16>> = HashSet::new();
+            for mask in 0..nmask {
+                let base: Vec<u16> = (0..k).filter(|i| mask & (1 << i) != 0).map(|i| core16[i]).collect();
+                let mut b = base.clone();
+                b.sort_unstable();
+                set.insert(b);
+                for a in &sr_alpha {
+                    let mut v = base.clone();
+                    v.push(*a);
+                    v.sort_unstable();
+                    set.insert(v);
+                }
+            }
+            set.len() as u64
+        };
+        if own != expect {
+            kit::ev::machinery(format!("C04: engine visits {own} distinct states on the cross-check instance, formula says {expect}"));
+        }
+        run.evals(ev.load(Ordering::Relaxed));
+        run.traces(ev.load(Ordering::Relaxed));
+        for (st, what) in mm.lock().unwrap().iter().take(50) {
+            let seq: Vec<Atom> = st.iter().map(|i| al.atoms[*i as usize]).collect();
+            run.violation(
+                format!("unsound(stateright) {what}"),
+                format!("stateright BFS: {what}; statuses {}", Value::Array(seq.iter().map(|a| al.describe(*a)).collect())),
+                json!({"kind": "seq", "atoms": seq.iter().map(|a| al.describe(*a)).collect::<Vec<_>>()}),
+            );
+        }
+    }
+
+    // ---- bookkeeping --------------------------------------------------------------------------------
+    run.evals(ctx.cnt.evals.load(Ordering::Relaxed));
+    run.transitions(ctx.cnt.transitions.load(Ordering::Relaxed));
+    run.traces(ctx.cnt.traces.load(Ordering::Relaxed));
+    run.nontrivial_n(ctx.cnt.nontrivial.load(Ordering::Relaxed));
+    for g in 0..3 {
+        for a in 0..3 {
+            let n = ctx.cnt.outcome[g][a].load(Ordering::Relaxed);
+            if n > 0 {
+                run.outcome_n(format!("impl={} reference-allows={}", STATE_NAMES[g], STATE_NAMES[a]), n);
+            }
+        }
+    }
+    for (mask, extra) in [(0b111usize, None), (0b1011, None), (0b100011, None), (0b11, Some(al.idx("signingCredential.expired", 1, 2)))] {
+        let mut seq = rep[mask].1.clone();
+        let mut o = rep[mask].0.clone();
+        if let Some(e) = extra {
+            o.add_status(al.statuses[e].clone());
+            seq.push(al.atoms[e]);
+        }
+        run.sample(json!({"statuses": seq.iter().map(|a| al.describe(*a)).collect::<Vec<_>>(), "validation_state": format!("{:?}", o.validation_state())}));
+    }
+}
+
+/// The legacy fallback: readers that carry no results object.
+fn legacy(ctx: &Ctx) {
+    let run = ctx.run;
+    let al = ctx.al;
+    let judge_legacy = |src: &str, codes: Option<&[usize]>, got: ValidationState| {
+        // most permissive reading: bins by the section the SDK source declares for the code
+        let atoms: Vec<(&str, u8, u8)> = codes
+            .unwrap_or(&[])
+            .iter()
+            .map(|c| {
+                let bin = match al.declared[*c] {
+                    "success" => 0u8,
+                    "informational" => 1,
+                    _ => 2,
+                };
+                (al.codes[*c].as_str(), 0u8, bin)
+            })
+            .collect();
+        let (allowed, why) = reference(atoms.iter().cloned());
+        let g = rank(got);
+        ctx.cnt.outcome[g as usize][allowed as usize].fetch_add(1, Ordering::Relaxed);
+        ctx.cnt.evals.fetch_add(1, Ordering::Relaxed);
+        ctx.cnt.traces.fetch_add(1, Ordering::Relaxed);
+        if g > allowed {
+            let list = match codes {
+                None => "absent".to_string(),
+                Some([]) => "empty".to_string(),
+                Some(c) if c.iter().all(|x| tolerated(&al.codes[*x])) => "tolerated-failures-only".to_string(),
+                Some(c) => format!("[{}]", c.iter().map(|x| al.codes[*x].clone()).collect::<Vec<_>>().join(",")),
+            };
+            run.violation(
+                format!("legacy-fallback src={src} list={list} got={} allowed={}", STATE_NAMES[g as usize], STATE_NAMES[allowed as usize]),
+                format!(
+                    "a Reader without a validation-results object ({src}, status list {}) reports {} although nothing shows that the claim signature validated ({why})",
+                    match codes {
+                        None => "absent".to_string(),
+                        Some(c) => format!("{:?}", c.iter().map(|x| al.codes[*x].as_str()).collect::<Vec<_>>()),
+                    },
+                    STATE_NAMES[g as usize]
+                ),
+                json!({"kind": "legacy", "src": src, "codes": codes.map(|c| c.iter().map(|x| al.codes[*x].clone()).collect::<Vec<_>>())}),
+            );
+        }
+    };
+
+    // readers without anything
+    judge_legacy("Reader::default", None, Reader::default().validation_state());
+    judge_legacy("Reader::from_context(default)", None, Reader::from_context(c2pa::Context::new()).validation_state());
+    match c2pa::Context::new().with_settings(r#"{"verify":{"verify_trust":false}}"#) {
+        Ok(c) => judge_legacy("Reader::from_context(verify_trust=false)", None, Reader::from_context(c).validation_state()),
+        Err(e) => kit::ev::machinery(format!("C04: verify_trust=false rejected: {e:?}")),
+    }
+    match Reader::from_json(r#"{"manifests":{}}"#) {
+        Ok(r) => judge_legacy("Reader::from_json", None, r.validation_state()),
+        Err(e) => kit::ev::machinery(format!("C04: minimal reader JSON rejected: {e:?}")),
+    }
+
+    // every subset of <= 3 (quick: <= 2 over all codes, 3 over the failure-declared and unknown codes) codes
+    let n = al.codes.len();
+    let mut lists: Vec<Vec<usize>> = vec![vec![]];
+    for a in 0..n {
+        lists.push(vec![a]);
+        for b in a + 1..n {
+            lists.push(vec![a, b]);
+        }
+    }
+    let triple_pool: Vec<usize> = if run.tier.is_thorough() {
+        (0..n).collect()
+    } else {
+        // quick: triples over a pool of 40 codes: the codes the decision mentions + every 3rd other code
+        let mut v: Vec<usize> = [VALIDATED, INSIDE, TRUSTED, UNTRUSTED, CAWG_CORE, HARD_FAILURE].iter().map(|c| al.codes.iter().position(|x| x == c).unwrap()).collect();
+        for i in (0..n).step_by(3) {
+            if !v.contains(&i) {
+                v.push(i);
+            }
+        }
+        v.sort_unstable();
+        v
+    };
+    for (i, a) in triple_pool.iter().enumerate() {
+        for (j, b) in triple_pool.iter().enumerate().skip(i + 1) {
+            for c in triple_pool.iter().skip(j + 1) {
+                lists.push(vec![*a, *b, *c]);
+            }
+        }
+    }
+    run.space(
+        &format!("legacy Reader::from_json status lists: every subset of <= 2 of {n} codes, every 3-subset of a {}-code pool; + 4 readers without any status", triple_pool.len()),
+        lists.len() as u64 + 4,
+        true,
+    );
+    par::for_each(&lists, |codes| {
+        let doc = json!({"manifests": {}, "validation_status": codes.iter().map(|c| json!({"code": al.codes[*c]})).collect::<Vec<_>>()});
+        match Reader::from_json(&doc.to_string()) {
+            Ok(r) => judge_legacy("Reader::from_json", Some(codes), r.validation_state()),
+            Err(e) => kit::ev::machinery(format!("C04: legacy reader JSON rejected: {e:?}")),
+        }
+    });
+    ctx.cnt.nontrivial.fetch_add(lists.len() as u64, Ordering::Relaxed);
+    let mut by_len: BTreeMap<usize, u64> = BTreeMap::new();
+    for l in &lists {
+        *by_len.entry(l.len()).or_insert(0) += 1;
+    }
+    run.extra("legacy_lists_by_length", json!(by_len));
+}
+
+fn replay_case(ctx: &Ctx, c: &Value) {
+    let al = ctx.al;
+    match c["kind"].as_str() {
+        Some("legacy") => {
+            let src = c["src"].as_str().unwrap_or("");
+            let got = match (src, c["codes"].as_array()) {
+                ("Reader::default", _) => Reader::default().validation_state(),
+                ("Reader::from_context(default)", _) => Reader::from_context(c2pa::Context::new()).validation_state(),
+                ("Reader::from_context(verify_trust=false)", _) => {
+                    Reader::from_context(c2pa::Context::new().with_settings(r#"{"verify":{"verify_trust":false}}"#).unwrap()).validation_state()
+                }
+                (_, None) => Reader::from_json(r#"{"manifests":{}}"#).unwrap().validation_state(),
+                (_, Some(codes)) => {
+                    let doc = json!({"manifests": {}, "validation_status": codes.iter().map(|c| json!({"code": c})).collect::<Vec<_>>()});
+                    Reader::from_json(&doc.to_string()).unwrap().validation_state()
+                }
+            };
+            println!("replay legacy {src} codes={}: validation_state() = {got:?}", c["codes"]);
+            ctx.run.eval();
+            if got != ValidationState::Invalid {
+                // re-judge with the same rule as the sweep
+                let codes: Vec<usize> = c["codes"].as_array().map(|a| a.iter().filter_map(|x| al.codes.iter().position(|y| Some(y.as_str()) == x.as_str())).collect()).unwrap_or_default();
+                let atoms: Vec<(&str, u8, u8)> = codes.iter().map(|c| (al.codes[*c].as_str(), 0u8, match al.declared[*c] { "success" => 0u8, "informational" => 1, _ => 2 })).collect();
+                let (allowed, why) = reference(atoms.iter().cloned());
+                if rank(got) > allowed {
+                    ctx.run.violation("replay", format!("{got:?} but only {} allowed ({why})", STATE_NAMES[allowed as usize]), c.clone());
+                }
+            }
+        }
+        Some(kind) => {
+            let atoms: Vec<(String, u8, u8)> = c["atoms"].as_array().map(|a| a.iter().filter_map(|v| al.parse(v)).collect()).unwrap_or_default();
+            let seq: Vec<Atom> = atoms.iter().map(|(code, p, b)| al.atoms[al.idx(code, *p, *b)]).collect();
+            let got = if kind.starts_with("serde") || kind == "reader-json" {
+                let v = to_results_json(al, &seq);
+                if kind == "reader-json" {
+                    Reader::from_json(&json!({"manifests": {}, "validation_results": v}).to_string()).unwrap().validation_state()
+                } else {
+                    serde_json::from_value::<ValidationResults>(v).unwrap().validation_state()
+                }
+            } else {
+                let mut r = ValidationResults::default();
+                for (code, p, b) in &atoms {
+                    r.add_status(mk_status(code, *p, *b));
+                }
+                r.validation_state()
+            };
+            let (allowed, why) = reference(atoms.iter().map(|(c, p, b)| (c.as_str(), *p, *b)));
+            println!("replay {kind}: statuses {} -> validation_state() = {got:?}; reference allows at most {} ({why})", c["atoms"], STATE_NAMES[allowed as usize]);
+            ctx.run.eval();
+            if rank(got) > allowed {
+                ctx.run.violation("replay", format!("{got:?} but only {} allowed ({why})", STATE_NAMES[allowed as usize]), c.clone());
+            }
+        }
+        None => kit::ev::machinery("C04: replay case without kind"),
+    }
 }
